@@ -83,3 +83,22 @@ RB = {
 }
 for _pid, _extra in RB.items():
     CLAIMS[_pid]["technique"] += "; " + _extra
+
+# round 13
+RD = {
+ "C01": "data-order rule over the transpose kernels; reshape gate",
+ "C02": "offset-accumulation anchor of Ltoi; wrapper parity of Narrow",
+ "C03": "pattern-consulted rule on UnsafePermute",
+ "C04": "self-append lint (self-tested); window agreement of Slice/SliceInto",
+ "C05": "composition rule of the inverse shortcut; masked-iterator selection by path implication",
+ "C08": "raw-copy census on the materialise path",
+ "C09": "routine-name rule (no conjugating BLAS routine); view-reuse reset clause",
+ "C10": "literal stacking axes; delegation completeness of Dense.Repeat",
+ "C13": "pattern-consulted rule on UnsafePermute; window agreement of Slice/SliceInto",
+ "C14": "install-as-given rule on AP.Init; store-on-every-path rule on addMask",
+ "C15": "masked-iterator selection by path implication",
+ "C17": "data-order rule over every transpose kernel",
+ "C19": "second-header-is-not-a-result rule; self-append lint",
+}
+for _pid, _extra in RD.items():
+    CLAIMS[_pid]["technique"] += "; " + _extra
